@@ -10,7 +10,18 @@ from .arkcurve import base_preludes
 
 INV = "src/ark_curve/invsqrt.rs"
 ZETA = 2841681278031794617739547238867782961338435681360110683443920362658525667816
-ZZ = 6762755396584113496485389421189479608933826763106393667349575256979972066439
+
+
+def _zz_from_source():
+    """the literal of ZETA_TO_ONE_MINUS_M_DIV_TWO in src/ark_curve/constants.rs (re-read on every run)"""
+    import re
+    from vx.extract import src
+    from vx.rsscan import LostAnchor
+    it = src("src/ark_curve/constants.rs").find_const(None, "ZETA_TO_ONE_MINUS_M_DIV_TWO")
+    m = re.search(r'"(\d+)"', it.text)
+    if not m:
+        raise LostAnchor("no decimal literal in ZETA_TO_ONE_MINUS_M_DIV_TWO")
+    return int(m.group(1))
 
 STD = r"""
 // ---- stand-ins (A-ARK-1 / A-STD) for what invsqrt.rs uses
@@ -91,10 +102,43 @@ pub mod lazy {
     // `static SQRT_LOOKUP_TABLES: Lazy<SquareRootTables> = Lazy::new(|| SquareRootTables::new())`
     #[verifier::external_body]
     pub fn SQRT_LOOKUP_TABLES() -> (r: &'static SquareRootTables) ensures tables_ok(*r) { unimplemented!() }
+    // `G = ZETA.pow(*M)`: the literal G_() is zeta^M (lemma_g_is_zeta_m below, by compute; M checked in unit consts)
+    #[verifier::external_body]
+    pub fn G() -> (r: Fq) ensures r.val() == G_() { unimplemented!() }
+    #[verifier::external_body]
+    pub fn ONE() -> (r: Fq) ensures r.val() == 1 { unimplemented!() }
+    // literal re-read from src/ark_curve/constants.rs on every run (and related to zeta in unit consts)
+    #[verifier::external_body]
+    pub fn ZETA_TO_ONE_MINUS_M_DIV_TWO() -> (r: Fq) ensures r.val() == ZZ_() { unimplemented!() }
     // values checked in unit consts (c17_ark_M_MINUS_ONE_DIV_TWO)
     #[verifier::external_body]
     pub fn M_MINUS_ONE_DIV_TWO() -> (r: BigInteger256) ensures big256_val(r) == ((M_() - 1) / 2) as nat { unimplemented!() }
 }
+pub proof fn lemma_g_is_zeta_m() ensures mpow(fq_p(), ZETA_(), M_()) == G_() { assert(mpow(fq_p(), ZETA_(), M_()) == G_()) by(compute_only); }
+// `v.into_boxed_slice().try_into().unwrap()`: Vec<T> -> Box<[T]> -> Box<[T; 256]>; panics unless the length is 256 (A-STD)
+#[verifier::external_body]
+pub fn vec_to_boxed_array(v: Vec<Fq>) -> (r: Box<[Fq; 256]>) requires v@.len() == 256 ensures r@ == v@ { unimplemented!() }
+// M-ROOTS8: h = g^(2^39) is a primitive 256th root of unity of the cyclic group Fq^*, so every 256th root of unity is
+// an inverse power of h.  A statement about the constants q and g only.
+pub axiom fn m_roots8(x: int)
+    requires in_fq(x), xp(x, 256) == 1
+    ensures exists|nu: int| 0 <= nu < 256 && #[trigger] fmul(x, gp((nu * 549755813888) as nat)) == 1;
+// x * a == 1 and k * a == 1  ==>  x == k
+pub proof fn lemma_inv_unique(x: int, k: int, a: int)
+    requires in_fq(x), in_fq(k), fmul(x, a) == 1, fmul(k, a) == 1
+    ensures x == k
+{
+    // x == x (k a) == (x a) k == k
+    lemma_fmul_assoc_(x, k, a); lemma_fmul_comm_(x, k); lemma_fmul_assoc_(k, x, a);
+    lemma_fmul_one_r(x); lemma_fmul_one_r(k);
+    lemma_fmul_comm_(k, a); lemma_fmul_comm_(x, a);
+    lemma_fmul_assoc_(x, a, k); lemma_fmul_assoc_(k, a, x);
+    assert(fmul(fmul(x, a), k) == fmul(1, k));
+    assert(fmul(fmul(k, a), x) == fmul(1, x));
+    lemma_fmul_comm_(a, k); lemma_fmul_comm_(a, x);
+    assert(fmul(x, fmul(a, k)) == fmul(x, 1));
+}
+pub open spec fn hinv(j: int) -> int { mpow(fq_p(), gp((j * 549755813888) as nat), (fq_p() - 2) as nat) }
 // table products: (x * g^(b0 w0)) * g^(b1 w1) ... == x * g^(sum)
 pub proof fn lemma_tab2(x: int, e0: nat, e1: nat) ensures fmul(fmul(x, gp(e0)), gp(e1)) == fmul(x, gp(e0 + e1)) { lemma_chain(x, e0, e1); }
 pub proof fn lemma_tab3(x: int, e0: nat, e1: nat, e2: nat) ensures fmul(fmul(fmul(x, gp(e0)), gp(e1)), gp(e2)) == fmul(x, gp(e0 + e1 + e2))
@@ -159,7 +203,7 @@ def unit():
     M = (P - 1) >> 47
     fq["G"] = pow(ZETA, M, P)
     fq["M"] = M
-    fq["ZZ"] = ZZ
+    fq["ZZ"] = _zz_from_source()
     stubs, lem = opsmod.stub_items("fq")
     items = list(stubs)
     items.append(Item("src/fields/fq/arkworks.rs", "impl Zero for Fq", [Fn("is_zero", ensures="r == (self.val() == 0)")],
@@ -247,9 +291,48 @@ def unit():
         ensures="isqrt_ok(num.val(), den.val(), r.0, r.1.val())",
         preamble=bu + " let tabs_ = lazy::SQRT_LOOKUP_TABLES(); proof { lemma_p2_nat(47); }",
         subst=subst)]))
+    Wn = [1, 256, 65536, 16777216, 4294967296, 1099511627776]
+    loops = {0: """invariant
+                forall|x: int| #[trigger] s_lookup@.contains_key(x) ==> s_lookup@[x] < 256 && fmul(x, gp((s_lookup@[x] as nat) * 549755813888)) == 1,
+                forall|j: int| 0 <= j < nu ==> s_lookup@.contains_key(#[trigger] hinv(j)),"""}
+    loops_begin = {0: "broadcast use fq_abs; proof { lemma_p2_nat(39); assert(p2(39) == 549755813888) by(compute_only); }"}
+    loops_end = {}
+    newhint = ("R27", r'(let g_inv = [^;]*;)', r"""\1 proof { let e_ = ((nu as nat) * 549755813888) as nat;
+                let ge_ = gp(e_);
+                assert(nu * 549755813888 < 0x1_0000_0000_0000);
+                lemma_xp_nonzero(G_(), e_); m_prime_fermat_(ge_); lemma_fmul_comm_(ge_, hinv(nu as int));
+                lemma_xp_range(ge_, (fq_p() - 2) as nat);
+                assert(g_inv.val() == ge_);
+                assert(fmul(hinv(nu as int), ge_) == 1); }""")
+    for k_, w_ in enumerate(Wn):
+        prev = " && ".join([f"gtab@.len() == {k_}"] + [f"tab_ok(gtab@[{i}]@, {Wn[i]})" for i in range(k_)])
+        loops[k_ + 1] = f"""invariant gtab_i@.len() == nu as int, {prev}, power_of_two == {8 * k_},
+                forall|j: int| 0 <= j < nu ==> (#[trigger] gtab_i@[j]).val() == gp((j * {w_}) as nat),"""
+        loops_begin[k_ + 1] = f"broadcast use fq_abs; proof {{ lemma_p2_nat({8 * k_}); assert(p2({8 * k_}) == {w_}) by(compute_only); }}"
+    items.append(Item(INV, "impl SquareRootTables", [Fn(
+        "new", props=("C09",),
+        ensures="tables_ok(r)",
+        preamble=bu + " proof { lemma_g_is_zeta_m(); }",
+        unroll=[1],
+        loops=loops, loops_begin=loops_begin, loops_end=loops_end,
+        subst=[newhint, ("R7", r'\bHashMap::new\(\)', 'FqU64Map::new()'),
+               ("R3", r'\bG\.pow\(', 'lazy::G().pow('),
+               ("R6", r'\b2u64\.pow\(', 'pow2_u64('),
+               ("R6", r'(:\s*BigInteger(256|64)\s*=\s*)\(?((?:[^;()]|\([^;()]*\))*?)\)?\.into\(\)\s*;', r'\1BigInteger\2::from(\3);'),
+               ("R6", r'(\w+)\.pop\(\)\.unwrap\(\)\.into_boxed_slice\(\)\.try_into\(\)\.unwrap\(\)', r'vec_to_boxed_array(\1.pop().unwrap())'),
+               ("R6", r'\.expect\("[^"]*"\)', '.unwrap()')],
+        epilogue="""
+            assert forall|x: int| in_fq(x) && #[trigger] xp(x, 256) == 1 implies r_.s_lookup@.contains_key(x) by {
+                m_roots8(x);
+                let nu = choose|nu: int| 0 <= nu < 256 && #[trigger] fmul(x, gp((nu * 549755813888) as nat)) == 1;
+                let ge_ = gp((nu * 549755813888) as nat);
+                lemma_xp_nonzero(G_(), (nu * 549755813888) as nat); m_prime_fermat_(ge_); lemma_fmul_comm_(ge_, hinv(nu));
+                lemma_xp_range(ge_, (fq_p() - 2) as nat);
+                lemma_inv_unique(x, hinv(nu), ge_);
+            }""")]))
     u = Unit(name="ark_invsqrt",
              preludes=base_preludes() + [("curve_spec.rs", None), ("ladder_lemmas.rs", None), ("pow_lemmas.rs", None), ("sarkar_lemmas.rs", fq)],
-             items=items, lemmas=lem + STD, params=fq, lazy_names=("M_MINUS_ONE_DIV_TWO",),
+             items=items, lemmas=lem + STD, params=fq, lazy_names=("M_MINUS_ONE_DIV_TWO", "ONE", "ZETA_TO_ONE_MINUS_M_DIV_TWO"),
              global_subst=[("R17", r'\bN\b', 'SQRT_N')])       # the imported static `N` clashes with the limb count of the field prelude
     u.raw = [(INV, "struct", "SquareRootTables")]
     u.raw_subst = [("R7", r'HashMap<Fq, u64>', 'FqU64Map'), ("R17", r'^\s*struct SquareRootTables', 'pub struct SquareRootTables')]
